@@ -16,6 +16,7 @@ type pdKind int
 const (
 	pdElem  pdKind = iota // cell / element in M$<type>
 	pdField               // field heap F$struct$field indexed by base
+	pdLocal               // non-escaping local struct kept in frame-local state variables
 )
 
 type ptrDesc struct {
@@ -25,6 +26,15 @@ type ptrDesc struct {
 	field int
 	obj   Term // pdElem: object (block) and offset inside it
 	off   Term
+	local string // pdLocal: state variable prefix
+}
+
+// childDesc gives the descriptor of field i of a struct located by pd at address addr.
+func childDesc(pd *ptrDesc, addr Term, si *structInfo, i int) *ptrDesc {
+	if pd != nil && pd.kind == pdLocal {
+		return &ptrDesc{kind: pdLocal, local: pd.local + "." + si.fields[i].name}
+	}
+	return &ptrDesc{kind: pdField, base: addr, si: si, field: i}
 }
 
 // elemLoc gives the (object, offset) location of a pointer to a non-struct value.
@@ -235,7 +245,7 @@ func (f *frame) load(addr Term, t types.Type, pd *ptrDesc) Term {
 		var args []Term
 		for i, fi := range si.fields {
 			fa := bvAdd(addr, i64(fi.offset))
-			args = append(args, f.load(fa, fi.typ, &ptrDesc{kind: pdField, base: addr, si: si, field: i}))
+			args = append(args, f.load(fa, fi.typ, childDesc(pd, addr, si, i)))
 		}
 		return app(si.ctor, si.sort, args...)
 	case *types.Array:
@@ -266,6 +276,9 @@ func (f *frame) load(addr Term, t types.Type, pd *ptrDesc) Term {
 	}
 	var v Term
 	var hn string
+	if pd != nil && pd.kind == pdLocal {
+		return f.st.get(pd.local, tt.sortOf(t))
+	}
 	if pd != nil && pd.kind == pdField {
 		var hs Sort
 		hn, hs = tt.fieldHeap(pd.si, pd.field)
@@ -275,7 +288,7 @@ func (f *frame) load(addr Term, t types.Type, pd *ptrDesc) Term {
 		v = f.elemRead(f.st, t, obj, off)
 		hn, _ = tt.elemHeap(t)
 	}
-	if hasRefs(t) {
+	if hasRefs(t) && f.vc.binderDepth == 0 {
 		// references stored in a heap were allocated before the last write to that heap
 		f.vc.assume(tt.typeInv(v, t, f.st.get("A$"+hn, SBV64)))
 	}
@@ -311,7 +324,7 @@ func (f *frame) store(addr Term, t types.Type, pd *ptrDesc, v Term) {
 		si := tt.structOf(t)
 		for i, fi := range si.fields {
 			fa := bvAdd(addr, i64(fi.offset))
-			f.store(fa, fi.typ, &ptrDesc{kind: pdField, base: addr, si: si, field: i}, tt.fieldOf(v, si, i))
+			f.store(fa, fi.typ, childDesc(pd, addr, si, i), tt.fieldOf(v, si, i))
 		}
 		return
 	case *types.Array:
@@ -329,6 +342,10 @@ func (f *frame) store(addr Term, t types.Type, pd *ptrDesc, v Term) {
 		for i := int64(0); i < u.Len(); i++ {
 			f.store(bvAdd(addr, i64(i*sl)), u.Elem(), nil, mkSelect(v, i64(i), tt.sortOf(u.Elem())))
 		}
+		return
+	}
+	if pd != nil && pd.kind == pdLocal {
+		f.st.set(pd.local, f.vc.define(pd.local, v))
 		return
 	}
 	if pd != nil && pd.kind == pdField {
@@ -358,7 +375,7 @@ func (f *frame) zeroMem(addr Term, t types.Type, pd *ptrDesc) {
 	case *types.Struct:
 		si := tt.structOf(t)
 		for i, fi := range si.fields {
-			f.zeroMem(bvAdd(addr, i64(fi.offset)), fi.typ, &ptrDesc{kind: pdField, base: addr, si: si, field: i})
+			f.zeroMem(bvAdd(addr, i64(fi.offset)), fi.typ, childDesc(pd, addr, si, i))
 		}
 		return
 	case *types.Array:
@@ -657,6 +674,7 @@ func (f *frame) loopHeader(b *ssa.BasicBlock, li *loopInfo, reach Term, preds []
 		mods := vc.loopMods[f.prefix+li.key]
 		if mods["*"] {
 			f.st = vc.havocAll(entrySt)
+			f.st.mods = mods // frame-local names written in the loop are havocked too
 		} else {
 			f.st = vc.havocSome(entrySt, mods)
 		}
